@@ -156,6 +156,12 @@ def attrOut (v : List Char) : List Char :=
   if v.length < 2 || v.head? != some '"' || v.getLast? != some '"' then v
   else escapeAttrVal (replEnt XmlTables.entities XmlTables.attrRev (v.drop 1).dropLast)
 
+/-- the value of a pseudo-attribute inside a processing instruction (/repo 59fe76b): the data of a processing
+instruction has no references, so `ReplaceEntities` is not applied; a `"…"` literal is still re-quoted -/
+def attrOutPI (v : List Char) : List Char :=
+  if v.length < 2 || v.head? != some '"' || v.getLast? != some '"' then v
+  else escapeAttrVal ((v.drop 1).dropLast)
+
 /-! ## the loop -/
 
 def startsWs : List Char → Bool
@@ -232,13 +238,16 @@ def emitGo (o : XmlOpts) : Bool → Nat → Bool → Nat → List XTok → List 
     | .startTag n => .startTag n :: emitGo o (if o.keepWhitespace then false else om) 0 pi 0 r
     | .endTag d n => .endTag (endTagOut d n) n :: emitGo o (if o.keepWhitespace then false else om) 0 pi 0 r
     | .startTagClose =>
-      match collapseSkip o r with
-      | some n => .startTagCloseVoid :: emitGo o om 0 pi n r
-      | none => .startTagClose :: emitGo o om 0 pi 0 r
-    | .attr n v => .attr n (attrOut v) :: emitGo o om 0 pi 0 r
+      -- a `>` in the data of a processing instruction (the lexer reads it like a tag) ends `inPI`, no look-ahead
+      if pi then .startTagClose :: emitGo o om 0 false 0 r
+      else
+        match collapseSkip o r with
+        | some n => .startTagCloseVoid :: emitGo o om 0 pi n r
+        | none => .startTagClose :: emitGo o om 0 pi 0 r
+    | .attr n v => .attr n (if pi then attrOutPI v else attrOut v) :: emitGo o om 0 pi 0 r
     | .attrBare d n => (if pi then XTok.attrBare d n else XTok.attr n []) :: emitGo o om 0 pi 0 r
     | .startTagPI n => .startTagPI n :: emitGo o om 0 true 0 r
-    | .startTagCloseVoid => .startTagCloseVoid :: emitGo o om 0 pi 0 r
+    | .startTagCloseVoid => .startTagCloseVoid :: emitGo o om 0 false 0 r
     | .startTagClosePI => .startTagClosePI :: emitGo o om 0 false 0 r
     | .doctype d => .doctype d :: emitGo o om 0 pi 0 r
 
@@ -261,8 +270,21 @@ def render : XTok → List Char
 
 def renderAll (ts : List XTok) : List Char := ts.flatMap render
 
+/-- Bytes written for the emitted tokens.  `pi` = `inPI` of the loop (recoverable from the emitted tokens: it is set
+by `<?target`, cleared by `?>`, `>` and `/>`, all of which are emitted one to one): since /repo 59fe76b a `>` or `/>`
+inside a processing instruction is written with a space in front of it. -/
+def renderGo : Bool → List XTok → List Char
+  | _, [] => []
+  | pi, t :: r =>
+    match t with
+    | .startTagPI _ => render t ++ renderGo true r
+    | .startTagClosePI => render t ++ renderGo false r
+    | .startTagClose => (if pi then ' ' :: render t else render t) ++ renderGo false r
+    | .startTagCloseVoid => (if pi then ' ' :: render t else render t) ++ renderGo false r
+    | _ => render t ++ renderGo pi r
+
 /-- output bytes of `xml.Minify` for the token stream `ts` -/
-def xmlMinify (o : XmlOpts) (ts : List XTok) : List Char := renderAll (emit o true ts)
+def xmlMinify (o : XmlOpts) (ts : List XTok) : List Char := renderGo false (emit o true ts)
 
 /-- modelled domain -/
 def refsInDomain : List Char → Bool
